@@ -586,6 +586,75 @@ theorem inline_paragraph_is_greedy (cfg : Cfg) (d : Deco) (w : Nat) (hw : 1 ≤ 
         simp only [i1.lines, List.nil_append, List.map_map, linesText]
         congr 1
 
+/-- the width a paragraph is wrapped at: `max_wrap_width`, if set, clamped to the width available -/
+def wrapEff (cfg : Cfg) (w : Nat) : Nat := match cfg.wrapWidth with | some m => min m w | none => w
+
+/-- the same under any `max_wrap_width`: the effective width is `wrapEff cfg w` -/
+theorem inline_paragraph_is_greedy_eff (cfg : Cfg) (d : Deco) (w : Nat) (hw : 1 ≤ w) (hfn : cfg.footnotes = false) (hm : 1 ≤ wrapEff cfg w)
+    (hpad : cfg.padBlocks = false) (hov : cfg.overflow = false) (kids : List RNode) (hin : inlineOps (compileList cfg d kids) = true)
+    (hpos : ∀ wd ∈ words (partsText (opsParts d [] (compileList cfg d kids))), 0 < lwc wd) :
+    (renderTree cfg d w (.box {} .block kids)).map (fun ls => ls.map rlineChars) =
+      greedy (wrapEff cfg w) (words (partsText (opsParts d [] (compileList cfg d kids)))) := by
+  have hg := wrap_eq_greedy_full (wrapEff cfg w) (opsParts d [] (compileList cfg d kids)) hm hpos
+  rw [← hg]
+  unfold wrapParts renderTree
+  rw [if_neg (by omega)]
+  have hc : compile cfg d (.box {} .block kids) = .startBlock :: (compileList cfg d kids ++ [.endBlock]) := by
+    simp [compile, styleOpen, styleClose]
+  rw [hc, runOps_cons_eq]
+  have hsb : runOp SubR.widthMinus cfg d ({ cur := { width := w } } : RS) .startBlock = .ok { cur := { width := w } } := by
+    simp [runOp, stepSimple, RS.onCur, SubR.startBlock, SubR.flushWrapping, andThen]
+  have hinv : PInv cfg ({ cur := { width := w } } : RS).cur ({ width := wrapEff cfg w } : WB) :=
+    ⟨rfl, rfl, rfl, rfl, rfl, rfl, by simp only [SubR.getWrapping, wrapEff, hpad, hov]; cases cfg.wrapWidth <;> rfl, rfl, fun _ => Or.inl rfl⟩
+  have hsim := inline_sim cfg d hfn (compileList cfg d kids) { cur := { width := w } } { width := wrapEff cfg w } hin hinv
+  rw [hsb]
+  simp only [andThen]
+  rw [runOps_append]
+  cases e1 : ({ width := wrapEff cfg w } : WB).runParts (opsParts d [] (compileList cfg d kids)) with
+  | error err =>
+    rw [e1] at hsim
+    have hsim' : runOps SubR.widthMinus cfg d { cur := { width := w } } (compileList cfg d kids) = .error err := hsim
+    simp only [hsim', andThen]
+    rfl
+  | ok b1 =>
+    rw [e1] at hsim
+    obtain ⟨t1, r1, i1⟩ := hsim
+    simp only [r1, andThen, runOps, runOp, stepSimple, RS.onCur, footTexts, hfn, Bool.false_eq_true, if_false, List.isEmpty_nil, if_true]
+    unfold SubR.intoLines SubR.flushWrapping
+    have hwb := i1.wb
+    unfold SubR.getWrapping at hwb
+    cases hwr : t1.cur.wrapping with
+    | none =>
+      simp only [hwr] at hwb
+      rw [← hwb, fresh_finish]
+      simp only [andThen, i1.lines, Except.map, linesText, List.map_nil]
+    | some w1 =>
+      simp only [hwr] at hwb
+      subst hwb
+      have hwm : marks w1.word = [] := by
+        have := i1.mks
+        simp only [WB.marks, List.append_eq_nil_iff] at this
+        exact this.2
+      have hb : (if w1.word.noContent = true then { w1 with word := [] } else w1) = w1 := by
+        split
+        · rename_i hn
+          have := noContent_no_marks w1.word hn hwm
+          cases w1; simp_all
+        · rfl
+      have hfr : (if w1.word.noContent = true then w1.word else []) = [] := by
+        split
+        · rename_i hn; exact noContent_no_marks w1.word hn hwm
+        · rfl
+      simp only [hb, hfr, andThen]
+      cases h2 : w1.finish with
+      | error e => rfl
+      | ok ls =>
+        have := (addLines_plain (ls.map RLine.text) ({ t1.cur with atBlockEnd := true, wrapping := none } : SubR) i1.pf).1
+        simp only [Except.map]
+        rw [this]
+        simp only [i1.lines, List.nil_append, List.map_map, linesText]
+        congr 1
+
 /-! …stated on the render tree -/
 
 /-- a style that only colours -/
@@ -770,6 +839,16 @@ theorem inline_markup_paragraph_is_greedy (cfg : Cfg) (d : Deco) (w : Nat) (hw :
     (renderTree cfg d w (.box {} .block kids)).map (fun ls => ls.map rlineChars) = greedy w (words (inlFlats d kids)) := by
   have ht := (parts_compileList cfg d kids hin []).1
   have := inline_paragraph_is_greedy cfg d w hw hfn hww hpad hov kids (compileList_inline cfg d kids hin) (by rw [ht]; exact hpos)
+  rw [ht] at this
+  exact this
+
+/-- …and under `max_wrap_width`: the effective width is `min m w` -/
+theorem inline_markup_paragraph_is_greedy_eff (cfg : Cfg) (d : Deco) (w : Nat) (hw : 1 ≤ w) (hfn : cfg.footnotes = false)
+    (hm : 1 ≤ wrapEff cfg w) (hpad : cfg.padBlocks = false) (hov : cfg.overflow = false) (kids : List RNode)
+    (hin : inlineNodes kids = true) (hpos : ∀ wd ∈ words (inlFlats d kids), 0 < lwc wd) :
+    (renderTree cfg d w (.box {} .block kids)).map (fun ls => ls.map rlineChars) = greedy (wrapEff cfg w) (words (inlFlats d kids)) := by
+  have ht := (parts_compileList cfg d kids hin []).1
+  have := inline_paragraph_is_greedy_eff cfg d w hw hfn hm hpad hov kids (compileList_inline cfg d kids hin) (by rw [ht]; exact hpos)
   rw [ht] at this
   exact this
 
